@@ -20,7 +20,7 @@ pub fn run(args: &Args) {
     let meta = std::sync::Mutex::new(std::io::BufWriter::new(std::fs::File::create(format!("{}/files.jsonl", args.out)).unwrap()));
     let corpus = crate::c02::corpus_files();
     let ncorpus = corpus.len() as u64;
-    let per_corpus = if args.tier == "thorough" { 12 } else { 3 };
+    let per_corpus = if args.tier == "thorough" { 15 } else { 5 };
     let a2 = Args { cases: args.cases + ncorpus * per_corpus, ..Args::parse() };
     let agg = run_cases(&a2, |seed, k| {
         let mut o = Outcome::default();
@@ -63,8 +63,11 @@ pub fn run(args: &Args) {
         };
         let mut loaded: Vec<bool> = vec![false; lazy.get_sheet_count()];
         let mut hist: Vec<String> = vec![];
-        let nops = rng.range(1, 10);
-        let focus = rng.chance(1, 3);
+        // the first three histories of every corpus file are fixed and minimal: add / remove / rename a sheet while every
+        // other sheet is still unloaded; the rest are random
+        let script: Option<Vec<u64>> = if k < ncorpus * per_corpus { match k % per_corpus { 0 => Some(vec![7]), 1 => Some(vec![8]), 2 => Some(vec![9, 5]), _ => None } } else { None };
+        let nops = script.as_ref().map(|s| s.len() as u32).unwrap_or_else(|| rng.range(1, 10));
+        let focus = script.is_none() && rng.chance(1, 3);
         if focus {
             o.feat("history:objects-added-before-unloaded-sheets");
         }
@@ -80,6 +83,9 @@ pub fn run(args: &Args) {
                 // early sheets gain objects (comments, charts) while the later sheets stay unloaded until the save
                 i = rng.below(n.min(2) as u64) as usize;
                 op = *rng.pick(&[2u64, 5, 13, 14, 13, 9, 7]);
+            }
+            if let Some(sc) = &script {
+                op = sc[hist.len().min(sc.len() - 1)];
             }
             let name_i = lazy.get_sheet_collection_no_check()[i].get_name().to_string();
             // in-range arguments only: no insert below content that already sits on the last row
